@@ -33,6 +33,27 @@ def h_frontend(g, case, m, n):
         # hbar-free reference: displacement by x0/sqrt(2) along x (X) or p (Z)
         be2.displacement(x0 / fn.sqrt(2 + 0 * x0), 0 * x0 if case == "Xgate" else g.pi / 2, m)
         F.eq_gauss_state(g, case, F.gauss_final(be), F.gauss_final(be2))
+    elif case == "Vgate":
+        # V(gamma) = exp(i gamma x^3 / (3 hbar)) with x ~ sqrt(hbar): gamma scales as 1/sqrt(hbar).  The (hbar = 2) backend
+        # kernel must be handed gamma0/sqrt(2) whatever hbar is.  Only Fock-type backends implement the kernel: the
+        # call is recorded instead
+        g0 = g.real("gamma0", nonzero=True)
+        calls = []
+
+        class Rec:
+            def cubic_phase(self, gamma, mode):
+                calls.append((gamma, mode))
+        with prog.context as q:
+            ops.Vgate(g0 / rt) | q[m]
+        prog.circuit[0].op.apply(prog.circuit[0].reg, Rec())
+        g.fact("one cubic_phase call on the target mode", len(calls) == 1 and calls[0][1] == m, detail=repr([c[1] for c in calls]))
+        g.eq("cubic_phase argument in backend units", calls[0][0] * calls[0][0] * 2, g0 * g0)
+        g.holds("sign kept", (calls[0][0] * g0 > 0) if g.sym else bool(calls[0][0] * g0 > 0))
+        with sf.Program(n).context as q2:
+            opd = ops.Vgate(g0 / rt).H
+        del calls[:]
+        opd.apply([prog.register[m]], Rec())
+        g.eq("inverse gate: opposite argument", calls[0][0], -(g0 / rt) * fn.sqrt(h / 2))
     elif case == "MeasureHomodyne.select":
         s0, phi = g.real("s0"), g.real("phi")
         log = []
@@ -121,10 +142,10 @@ def h_state_dimensionless(g, n):
 
 def build(ctx):
     n = 2
-    for case in ("Xgate", "Zgate", "MeasureHomodyne.select", "MeasureHomodyne.sample", "Gaussian"):
+    for case in ("Xgate", "Zgate", "Vgate", "MeasureHomodyne.select", "MeasureHomodyne.sample", "Gaussian"):
         for m in range(n):
             ctx.add("frontend.%s[%d]" % (case, m), h_frontend, {"case": case, "m": m, "n": n}, modules=mods,
-                    functions=["ops.Xgate._decompose", "ops.Zgate._decompose", "ops.MeasureHomodyne._apply", "ops.Gaussian.__init__/_apply",
+                    functions=["ops.Xgate._decompose", "ops.Zgate._decompose", "ops.Vgate._apply", "Gate.apply", "ops.MeasureHomodyne._apply", "ops.Gaussian.__init__/_apply",
                                "GaussianBackend.*"],
                     bounds={"modes": n, "hbar": "symbolic > 0", "state": "arbitrary"})
     for nn in (1, 2):
